@@ -772,7 +772,7 @@ def _crash():
             for pat in sorted({(1 << n) - 1, (1 << n) - 2, 1, 0}):
                 for mutable in (True, False):
                     t = tq(n, 2 if dq else 3, 3 if dq else 4)
-                    if not mutable and pat != (1 << n) - 2:
+                    if (not mutable and pat != (1 << n) - 2) or (n == 1 and pat == 1) or (n >= 2 and pat == 1):
                         t = THOROUGH if t else None
                     if t is None:
                         continue
@@ -807,7 +807,7 @@ def _crash():
             heavy = dq and op in ("push", "change", "change_by", "remove", "pop_hi_if", "push_inc")
             for n, d in ((1, 1), (2, 1), (3, 1), (3, 2), (4, 1)):
                 t = tq(n, 2 if heavy else 3, 3 if dq else 4)
-                if d == 2:
+                if d == 2 or n == 1:
                     t = THOROUGH if t else None
                 if t is None:
                     continue
